@@ -12,6 +12,8 @@ for d in sorted(glob.glob('/verif/seeded/C*-*'), key=lambda p: (p.split('/')[-1]
     needs = str(m.get('needs_to_manifest') or m.get('needs') or m.get('what_it_needs') or '')[:220].replace('|', '/').replace('\n', ' ')
     res = open(d + '/result.txt').read() if os.path.exists(d + '/result.txt') else ''
     caught = 'caught' if 'VIOLATION' in res else ('MISSED' if 'OK property' in res else '?')
+    if caught != 'caught' and os.path.exists(d + '/not-reached.txt'):
+        caught = 'not reached (thread race, see not-reached.txt)'
     sig = re.search(r'replay=/verif/replays/(\S+)', res)
     conf = open(d + '/confirm.txt').read() if os.path.exists(d + '/confirm.txt') else ''
     ok = all(x in conf for x in ('demo on clean tree: exit 0', 'existing tests with patch: exit 0')) and 'demo with patch: exit 0' not in conf
@@ -24,7 +26,7 @@ worktree (`patch.diff`), its demonstration (`demo.rs`: fails with the change, pa
 `meta.json`, `confirm.txt` (the integrator's own confirmation in the scratch worktree: demo passes on the clean
 tree, the existing suite passes with the patch, the demo fails with the patch) and `result.txt` (quick check of the
 property against `/repo` with the patch applied, written by `seedcheck_all.sh`).
-`-1`/`-2` = round 1, `-3`/`-4` = round 2 (agents were told what round 1 had delivered). DESIGN.md section 9.2
+`-1`/`-2` = round 1, `-3`/`-4` = round 2, `-5`/`-6` = round 3, `-7`/`-8` = round 4, `-9`/`-10` = round 5 (ten properties only); from round 2 on the agents were told what had already been delivered. DESIGN.md section 9.2
 records which checks had to be strengthened for which change.
 
 Re-run one: `./tryseed.sh <ID>-<n>` (applies the patch to /repo, runs the property's quick check, reverts);
